@@ -19,6 +19,12 @@ def _num(x):
 def replay(model, obligation):
     import time as _time
     from cassandra import timestamps
+    if '/init/' in obligation:
+        g = timestamps.MonotonicTimestampGenerator()
+        first = g()
+        bad = g.__dict__.get('last', None) is None or first < int(_time.time() * 1e6) - 10 ** 7
+        g2 = timestamps.MonotonicTimestampGenerator()
+        return {'reproduced': g2.last != 0 or bad, 'detail': 'a fresh generator has last = %r (expected 0: nothing returned yet); its first timestamp is %r' % (g2.last, first)}
     L0 = int(model.get('last_at_acquire', model.get('last', 0)) or 0)
     t = _num(model.get('clock', 0))
     kw = dict(warn_on_drift=bool(model.get('warn_on_drift', True)))
